@@ -11,6 +11,14 @@ variant the code under /repo is.
 Independently of the model, the property is evaluated on the implementation's output with a Jordan-Wigner action written in
 Python: every state in exactly one block and recovered from its address; <t|H|s> != 0 only inside a block; every c, c^+, c^+c maps
 a block into at most one block (and the bimap holds exactly the pairs that occur); no exception for any lattice.
+Candidates: besides linear forms, constants, n_i n_j, N^2, ... the systematic non-linear family of checks/diagfam.py -- products of
+two and three linear forms in the n_i with coefficients of both signs (4 S^z_A S^z_B, (N_A - N_B) 2S^z, (n_a - n_b)(n_c - n_d),
+N_up N_down, (N-1)^2, N(N-1)(N-2), n_a n_b n_c, projectors on the filled state / the vacuum, parity, random products incl. `balanced`
+ones whose increments are state-dependent only in the middle of the Fock space, and products that are linear in disguise) -- in
+generic scenarios and, above all, in models where they are really conserved (diagonal Hamiltonians, Heisenberg / Ising exchange
+without hopping, decoupled clusters, spin-conserving hopping: gen_nonlinear, nonlinear_fixed), so that the acceptance decision is
+made by the uniform-shift test alone and a wrong acceptance shows both as a difference of the accept flags against the model and as
+a block that some c_i / c^+_i maps into two blocks.
 """
 import itertools
 from fractions import Fraction
@@ -882,6 +890,11 @@ def run(chk):
                 tie_fail = (sc, diff)
         # --- the property itself
         for (kind, detail) in pf[:1]:
+            if kind in ("multi-target", "bimap") and sc.mode == "custom":
+                bad = [str(kd) for kd, (_, _, a, p) in zip(kinds, r["cands"]) if a and not uniform_shift(p, r["N"])]
+                if bad:
+                    detail += "; accepted candidate%s %s change%s by a state-dependent amount under some c^+_i" % (
+                        "s" if len(bad) > 1 else "", ", ".join(bad), "" if len(bad) > 1 else "s")
             if k < len(probes):
                 key = "%s: %s" % (kind, sc.canon())
                 canonical.setdefault(kind, key)
@@ -923,7 +936,11 @@ def run(chk):
                 "hermitian term pairs (levels, density-density, spin-conserving hopping, spin-flip hopping, pair creation, quartic exchange), respecting or "
                 "breaking N / S_z on purpose; symm default / ignore / custom with 1-4 candidates (N, S_z, site / orbital / spin charges, random linear forms, "
                 "constants, the empty operator, n_i, products n_i n_j and n_i n_j n_k, double occupancy, N^2, hopping-like and pair-like non-diagonal "
-                "operators). Distinct = distinct scenario text; non-trivial = more than one block, or symmetries ignored, or a failure. Signature = lattice "
+                "operators, members of the non-linear family of checks/diagfam.py). Targeted (a quarter as many again): models in which non-linear "
+                "diagonal operators are conserved (diagonal H; Heisenberg / Ising exchange without hopping on 2-3 sites; decoupled clusters; "
+                "spin-conserving hopping) with 1-3 members of the family -- products of two / three linear forms of both signs, squares, polynomials "
+                "of N, projectors, parity, `balanced` products, linear-in-disguise -- alone or between linear candidates; 14 deterministic minimal ones "
+                "run first. Distinct = distinct scenario text; non-trivial = more than one block, or symmetries ignored, or a failure. Signature = lattice "
                 "shape class | conservation class of H | mode and candidate kinds with accepted/rejected.")
 
 
